@@ -5,7 +5,7 @@ SRC = 'C13.cpp'
 
 INT_NAMES = dict(i8='int8', u8='uint8', i16='int16', u16='uint16', i32='int32', u32='uint32', i64='int64', u64='uint64',
                  i128='int128', u128='uint128', W100='wide_integer<100>', W100U='wide_integer<100,unsigned>',
-                 W200='wide_integer<200>', E7='elastic_integer<7>', E31='elastic_integer<31>',
+                 W200='wide_integer<200>', E1='elastic_integer<1>', E2='elastic_integer<2>', E3='elastic_integer<3>', E7='elastic_integer<7>', E31='elastic_integer<31>',
                  OVN='overflow_integer<int>', RND='rounding_integer<int>')
 RADIX_E = list(range(-5, 6))
 RADIX_EQ = [-5, -3, -1, 0, 2, 5]
@@ -17,7 +17,7 @@ def programs(t, subset='all'):
     fb16 = 16 if t else 8
     ints, stat, sc8, scw, seam = [], [], [], [], []
     # (i) integers
-    for ty in ['i8', 'u8', 'E7']:
+    for ty in ['i8', 'u8', 'E1', 'E2', 'E3', 'E7']:  # E1..E3: capacity 2, the smallest buffers to_chars_static ever uses
         ints.append('I(%s, 16, "%s")' % (ty, INT_NAMES[ty]))
     for ty in ['i16', 'u16']:
         ints.append('I(%s, %d, "%s")' % (ty, fb16, INT_NAMES[ty]))
